@@ -509,6 +509,15 @@ impl Drop for FsUid {
     }
 }
 
+fn own_name_ign(ts: &[T], depth: usize) -> bool {
+    ts.iter().any(|t| match t {
+        T::Dir { name, ign, kids, .. } => {
+            (depth > 0 && ign.iter().any(|p| p == "*" || p == name)) || own_name_ign(kids, depth + 1)
+        }
+        _ => false,
+    })
+}
+
 fn has_locked(ts: &[T]) -> bool {
     ts.iter().any(|t| match t {
         T::Dir { locked, kids, .. } => *locked || has_locked(kids),
@@ -704,6 +713,9 @@ fn run_case(c: &Case, text: &str, env: &mut Env, drv: &mut Driver, rep: &mut Rep
     let (par, par_denied) = strip(par);
     if locked_tree {
         rep.branch("tree-with-unreadable-dir");
+    }
+    if own_name_ign(&c.main, 0) {
+        rep.branch("sub-directory-whose-own-ignore-file-matches-its-name");
     }
     if !par_denied.is_empty() || !ser_denied.is_empty() {
         rep.branch("unreadable-dir-error-visit");
